@@ -20,8 +20,12 @@ PARAMS = {  # property -> (quick: len, cuts), (thorough: len, cuts)
     "C10": ((2, 1), (3, 2)),
     "C11": ((3, 1), (4, 2)),
     "C12": ((4, 1), (5, 2)),
+    "C13": ((3, 1), (4, 1)),
     "C14": ((4, 1), (5, 2)),
 }
+
+
+EXTRA_ENC = {"C01": ["only reads changed the output"], "C14": ["source ranges"]}
 
 
 def sync_tree(src, dst, items=("src", "Cargo.toml", "Cargo.lock", "build.rs", "README.md", "benches")):
@@ -91,6 +95,18 @@ def run(name, repo="/repo", work=None, tier="quick", prop=None, seed=0):
     lockf.close()
     cmd = [exe, prop, str(ln), str(cuts), str(seed)]
     res["cmds"].append(f"bounded {prop} {ln} {cuts}  (built from /verif/bounded against {repo})")
+    # the encoding mode (all 36 encodings, text decoder paths) also carries clauses of C01 and C14: run it for them too and keep
+    # the violations of their clauses
+    extra = None
+    if prop in EXTRA_ENC:
+        try:
+            q = subprocess.run([exe, "C13", "2" if tier == "quick" else "3", "1", str(seed)], capture_output=True, text=True, timeout=3000)
+            ej = json.loads(q.stdout.strip().split("\n")[-1])
+            extra = dict(cases=ej["cases"], violations=[v for v in ej["violations"] if any(k in v["what"] for k in EXTRA_ENC[prop])])
+            res["cmds"].append(f"bounded C13 (encoding mode, clauses of {prop} only)")
+        except Exception as e:
+            res["reason"] = f"encoding mode of the bounded executor gave no report: {e}"
+            return res
     try:
         p = subprocess.run(cmd, capture_output=True, text=True, timeout=3000)
     except subprocess.TimeoutExpired:
@@ -112,16 +128,22 @@ def run(name, repo="/repo", work=None, tier="quick", prop=None, seed=0):
         # a panic of the real crate on some input is itself a robustness violation, but we cannot name the input here
         return res
     res["cases"] = j["cases"]
-    if "selectors" not in j:
+    if "selectors" not in j and "encodings" not in j:
       res["bound"] = f"all strings over the {len(j['alphabet'])}-symbol alphabet {j['alphabet']!r} up to length {j['exhaustive_len']} + {j['seed_documents']} seed documents, every {j['max_cuts']}-cut chunking, 7 handler configurations"
     res["violations"] = [dict(what=v["what"], detail=json.dumps(v)) | v for v in j["violations"]]
     # violations the executor classifies under a known-finding class (reported separately so that they cannot mask others);
     # `check` prints KNOWN-FINDING only if known_findings.json lists a finding identified by that class, otherwise they are
     # ordinary violations
     res["classified"] = {k[len("known_class_"):]: v for k, v in j.items() if k.startswith("known_class_") and v}
+    if "encodings" in j:
+        res["bound"] = f"{j['encodings']} ASCII-compatible encodings (all of encoding_rs) x all byte strings over {j['alphabet']} up to length {j['exhaustive_len']} as text / attribute value / comment text x every write boundary, 4 texts of 2600 bytes per encoding (beyond the decoder buffer), inserted strings with unmappable characters, meta-charset switch at every cut (reference: encoding_rs one-shot decoder without BOM handling)"
     if "selectors" in j:
         res["bound"] = f"{j['selectors']} selectors of the generated grammar sample x all tag sequences over {j['alphabet']} up to length {j['exhaustive_len']} + {j['seed_documents']} seed documents + pseudo-random sequences of 6-12 tokens (1500 quick / 6000 thorough, fixed seed) (independent tree/selector oracle)"
-    res["status"] = "ok" if not j["violations"] else "fail"
+    if extra:
+        res["cases"] += extra["cases"]
+        res["bound"] += "; plus the encoding mode: 36 encodings x byte strings up to length " + ("2" if tier == "quick" else "3") + " x every write boundary, long texts"
+        res["violations"] += [dict(what=v["what"], detail=json.dumps(v)) | v for v in extra["violations"]]
+    res["status"] = "ok" if not res["violations"] else "fail"
     res["time_s"] = round(time.time() - t0, 1)
     return res
 
